@@ -1,55 +1,94 @@
 import Bng.Proof.Acct
 import Bng.Proof.AcctDrain
+import Bng.Proof.AcctRetry
 import Bng.Proof.AcctNoDup
+import Bng.Proof.AcctPrefix
+import Bng.Model.AcctBackoff
 /-
   C08 — Every started session is accounted to a Stop, across outages and crashes.
 
   Property statements only.  `Bng.Acct` is the small-step model of radius.AccountingManager
-  (Bng/Model/Acct.lean): an operation history `ops : List Op` is ANY interleaving of API calls
-  (`start`, `interim`, `stop`, processor `deq`/`retry`, `shutdown`, `restart`), micro-steps `tick ans`
-  (one per persist/transmit/remove point of the Go code, `ans` = the RADIUS server's answer to the request
-  that step sends) and `crash` (drops the volatile state).  Quantifying over all `ops` is therefore
-  quantifying over all histories, all up/down vectors and all crash points.
+  (Bng/Model/Acct.lean).  An operation history `ops : List Op` is ANY interleaving of
+    * API calls (`start`, `interim`, `stop`, `shutdown`, `restart`) and their micro-steps `tick ans`
+      (one per persist/transmit/remove point of the Go code),
+    * steps of the background processor (`deq`, `retry`) and their micro-steps `ptick ans`, which run
+      CONCURRENTLY with the API call in progress (two program counters),
+    * `crash` (drops the volatile state) and `crashTorn` (crash in the middle of a persist step's file write).
+  `ans : Ans` is the RADIUS server's answer to the request that step sends: `up` (accepted, acknowledged),
+  `down` (not received), `lost` (accepted, but the client sees a failure: reply lost or late).
+  Quantifying over all `ops` is therefore quantifying over all histories, all three-valued answer vectors, all
+  interleavings of the processor with the API calls, and all crash points.
 
-  `(run (init c) ops).log` is the sequence of records the RADIUS server accepted.
+  `(run (init c) ops).log` = the records the RADIUS server accepted, in order; `.logAck` = for each of them
+  whether the client got the acknowledgement.
 -/
 namespace Bng.Spec.C08
 open Bng Bng.Acct AMap
 
 /-! ## a Stop only for a started session, carrying that session's identifiers -/
 
-/-- Every record the server ever accepts — in particular every Stop — belongs to a session id that
-    `StartSession` was called with, and carries the identifiers given in such a call. -/
+/-- Every record the server ever accepts — in particular every Stop — carries a (session id, identifiers)
+    pair that an ADMITTED StartSession call registered (`registered_is_admitted_start`). -/
 theorem own_identifiers (c : Cfg) (ops : List Op) :
-    ∀ r ∈ (run (init c) ops).log, Op.start r.sid r.ident ∈ ops := by
-  intro r hr
-  have h := (reg_run (reg_init c) ops).log r hr
-  rcases registered_run (init c) ops (r.sid, r.ident) h with h' | h'
-  · simp [init] at h'
-  · exact h'
+    ∀ r ∈ (run (init c) ops).log, (r.sid, r.ident) ∈ (run (init c) ops).registered :=
+  (reg_run (reg_init c) ops).log
 
-/-- No Stop is accepted for a session that was never started. -/
-theorem stop_only_started (c : Cfg) (ops : List Op) :
-    ∀ r ∈ (run (init c) ops).log, r.kind = .stop → ∃ ident, Op.start r.sid ident ∈ ops :=
-  fun r hr _ => ⟨r.ident, own_identifiers c ops r hr⟩
+/-- … and it was registered BEFORE the record was accepted: if the log is `pre ++ r :: post`, some prefix
+    `ops₁` of the history has exactly `pre` as its log and already has the pair registered. -/
+theorem own_identifiers_prefix (c : Cfg) (ops : List Op) (pre post : List Rec) (r : Rec)
+    (h : (run (init c) ops).log = pre ++ r :: post) :
+    ∃ ops₁ ops₂, ops = ops₁ ++ ops₂ ∧ (run (init c) ops₁).log = pre ∧
+      (r.sid, r.ident) ∈ (run (init c) ops₁).registered :=
+  log_record_origin (init c) (reg_init c) ops pre post r (by simp [init]) h
 
-/-- When session ids are not reused (each id is given to StartSession with one set of identifiers), every
-    accepted record of the session carries exactly those identifiers. -/
-theorem own_identifiers_unique (c : Cfg) (ops : List Op) (s ident : Nat)
-    (hstart : Op.start s ident ∈ ops)
-    (huniq : ∀ i j, Op.start s i ∈ ops → Op.start s j ∈ ops → i = j) :
+/-- `registered` grows only by a `start` call that is admitted: the instance is running, no API call is in
+    progress, the session id is not active (a refused StartSession registers nothing). -/
+theorem registered_is_admitted_start (σ : State) (op : Op) (x : Nat × Nat)
+    (h : x ∈ (step σ op).registered) (hn : x ∉ σ.registered) :
+    op = .start x.1 x.2 ∧ σ.up = true ∧ σ.vol.pc = none ∧ lookup σ.vol.sessions x.1 = none :=
+  registered_admitted σ op x h hn
+
+/-- No Stop is accepted for a session that was not started before: when the server accepts a Stop, the
+    history so far contains an admitted StartSession of that session id. -/
+theorem stop_only_started (c : Cfg) (ops : List Op) (pre post : List Rec) (r : Rec)
+    (h : (run (init c) ops).log = pre ++ r :: post) (_hk : r.kind = .stop) :
+    ∃ ops₁ ops₂ ident, ops = ops₁ ++ ops₂ ∧ (run (init c) ops₁).log = pre ∧
+      (r.sid, ident) ∈ (run (init c) ops₁).registered := by
+  obtain ⟨o1, o2, e, h1, h2⟩ := own_identifiers_prefix c ops pre post r h
+  exact ⟨o1, o2, r.ident, e, h1, h2⟩
+
+/-- When session ids are not reused, every accepted record of a session carries exactly the identifiers its
+    StartSession was given. -/
+theorem own_identifiers_unique (c : Cfg) (ops : List Op)
+    (hfresh : ((run (init c) ops).registered.map (·.1)).Nodup) (s ident : Nat)
+    (hreg : (s, ident) ∈ (run (init c) ops).registered) :
     ∀ r ∈ (run (init c) ops).log, r.sid = s → r.ident = ident := by
   intro r hr hs
-  have := own_identifiers c ops r hr
-  rw [hs] at this
-  exact huniq _ _ this hstart
+  have h1 := own_identifiers c ops r hr
+  rw [hs] at h1
+  -- two pairs with the same first component in a list whose first components are distinct
+  have key : ∀ (l : List (Nat × Nat)), (l.map (·.1)).Nodup → (s, r.ident) ∈ l → (s, ident) ∈ l → r.ident = ident := by
+    intro l
+    induction l with
+    | nil => intro _ h; simp at h
+    | cons x xs ih =>
+      intro hn ha hb
+      simp only [List.map_cons, List.nodup_cons] at hn
+      rcases List.mem_cons.mp ha with e1 | e1
+      · rcases List.mem_cons.mp hb with e2 | e2
+        · rw [← e1] at e2; exact (Prod.mk.inj e2).2.symm
+        · exact absurd (List.mem_map.mpr ⟨(s, ident), e2, rfl⟩) (by rw [← e1] at hn; exact hn.1)
+      · rcases List.mem_cons.mp hb with e2 | e2
+        · exact absurd (List.mem_map.mpr ⟨(s, r.ident), e1, rfl⟩) (by rw [← e2] at hn; exact hn.1)
+        · exact ih hn.2 e1 e2
+  exact key _ hfresh h1 hreg
 
 /-! ## never before its Start (recorded finding D24) -/
 
 /-- PARTIAL (finding D24).  An accepted Stop is preceded in the server's log by the accepted Start of the
     same session — for every session whose Start was acknowledged when StartSession sent it.  Excluded:
-    sessions in `startQueued`, i.e. whose Start request failed inside StartSession and was queued
-    (`D24_clause_is_failed_start` shows the clause is exactly that). -/
+    sessions in `startQueued`, i.e. whose Start request the client saw fail inside StartSession, so that it
+    was queued (`D24_clause_is_failed_start` shows the clause is exactly that). -/
 theorem stop_after_start_partial (c : Cfg) (ops : List Op) :
     ∀ pre r post, (run (init c) ops).log = pre ++ r :: post → r.kind = .stop →
       r.sid ∉ (run (init c) ops).startQueued →
@@ -57,13 +96,13 @@ theorem stop_after_start_partial (c : Cfg) (ops : List Op) :
   (sa_run (sa_init c) ops).log
 
 /-- The exclusion clause of D24 is narrow: a session enters `startQueued` only by the micro-step of
-    StartSession that transmits the Start, and only when the server does not answer it. -/
+    StartSession that transmits the Start, and only when the client does not get the acknowledgement. -/
 theorem D24_clause_is_failed_start (σ : State) (op : Op) (s : Nat)
     (h : s ∈ (step σ op).startQueued) :
-    s ∈ σ.startQueued ∨ (op = .tick false ∧ σ.vol.pc = some (.startSend s)) :=
+    s ∈ σ.startQueued ∨ ((∃ a, a ≠ Ans.up ∧ op = .tick a) ∧ σ.vol.pc = some (.startSend s)) :=
   startQueued_step σ op s h
 
-def w24 : List Op := [.start 1 1, .tick false, .tick true, .stop 1 1, .tick true, .tick true]
+def w24 : List Op := [.start 1 1, .tick .down, .tick .up, .stop 1 1, .tick .up, .tick .up]
 
 /-- D24 as a theorem: Start fails (queued), the immediate Stop succeeds: the log begins with the Stop. -/
 theorem D24_witness :
@@ -73,11 +112,11 @@ theorem D24_witness :
 
 /-! ## durability at every micro-step (recorded finding KF-acct-recovery-volatile) -/
 
-/-- PARTIAL (finding KF-acct-recovery-volatile).  At EVERY micro-step of EVERY history — i.e. wherever a
-    crash may strike — a session whose StartSession ran to completion and whose Stop the server has not
-    accepted still has its session file on disk.  Excluded: sessions in `recVol`, whose Stop the recovery
-    procedure itself re-queued in memory or loaded from pending.json (it deletes the file / pending.json
-    afterwards; `KF_recovery_clause_is_recovery`). -/
+/-- PARTIAL (finding KF-acct-recovery-volatile).  At EVERY micro-step of EVERY history — wherever a crash
+    (plain, or in the middle of a file write) may strike, whatever the processor is doing concurrently — a
+    session whose StartSession ran to completion and whose Stop the server has not accepted still has its
+    session file on disk.  Excluded: sessions in `recVol`, whose Stop the recovery procedure itself re-queued in
+    memory or loaded from pending.json (`KF_recovery_clause_is_recovery`). -/
 theorem durable_every_microstep_partial (c : Cfg) (ops : List Op) :
     ∀ s ∈ (run (init c) ops).started,
       (∃ r ∈ (run (init c) ops).log, r.kind = .stop ∧ r.sid = s) ∨
@@ -90,18 +129,18 @@ theorem started_is_completed_start (σ : State) (op : Op) (s : Nat) (h : s ∈ (
     s ∈ σ.started ∨ ((∃ a, op = .tick a) ∧ σ.vol.pc = some (.startPersist s)) :=
   started_step σ op s h
 
-/-- The exclusion clause is narrow: a session enters `recVol` only in the recovery procedure — when the
-    Stop it sends from an orphaned session file is not answered, or when it loads the session's Stop from
-    pending.json. -/
+/-- The exclusion clause is narrow: a session enters `recVol` only in the recovery procedure — when the client
+    gets no acknowledgement for the Stop it sends from an orphaned session file, or when it loads the session's
+    Stop from pending.json. -/
 theorem KF_recovery_clause_is_recovery (σ : State) (op : Op) (s : Nat) (h : s ∈ (step σ op).recVol) :
     s ∈ σ.recVol ∨
-    (op = .tick false ∧ ∃ rest recd order, σ.vol.pc = some (.recSend s rest recd order)) ∨
+    ((∃ a, a ≠ Ans.up ∧ op = .tick a) ∧ ∃ rest recd order, σ.vol.pc = some (.recSend s rest recd order)) ∨
     ((∃ a, op = .tick a) ∧ ∃ recd order ps, σ.vol.pc = some (.recLoad recd order) ∧ σ.dur.pfile = some ps ∧
       ∃ p ∈ ps, p.req.kind = .stop ∧ p.req.sid = s) :=
   recVol_step σ op s h
 
 def wRec : List Op :=
-  [.start 1 1, .tick true, .tick true, .crash, .restart [], .tick false, .tick true, .tick true, .crash]
+  [.start 1 1, .tick .up, .tick .up, .crash, .restart [], .tick .down, .tick .up, .tick .up, .crash]
 
 /-- The finding as a theorem: the session was started, the server never accepted a Stop, and after the
     second crash nothing on disk remembers it. -/
@@ -111,7 +150,7 @@ theorem KF_recovery_witness :
     σ.dur.files.isEmpty ∧ σ.dur.pfile.isNone ∧ 1 ∈ σ.recVol := by
   decide
 
-def wWin : List Op := [.start 1 1, .tick true, .crash]
+def wWin : List Op := [.start 1 1, .tick .up, .crash]
 
 /-- Recorded finding KF-acct-start-window: StartSession transmits the Start before it persists the session.
     A crash in between leaves a Start the server accepted, no session file, and (the call never completed)
@@ -122,8 +161,8 @@ theorem KF_start_window_witness :
     1 ∉ σ.started := by
   decide
 
-/-- FULL strength in the first process lifetime: in a history without `restart` (any crash point, any
-    answers) a started session without an accepted Stop has its session file — the D23 repair. -/
+/-- FULL strength in the first process lifetime: in a history without `restart` (any crash point, torn or
+    not, any answers, any interleaving) a started session without an accepted Stop has its session file. -/
 theorem durable_first_lifetime (c : Cfg) (ops : List Op) (h : ∀ order, Op.restart order ∉ ops) :
     ∀ s ∈ (run (init c) ops).started,
       (∃ r ∈ (run (init c) ops).log, r.kind = .stop ∧ r.sid = s) ∨
@@ -134,44 +173,57 @@ theorem durable_first_lifetime (c : Cfg) (ops : List Op) (h : ∀ order, Op.rest
   · rw [recVol_empty_without_restart c ops h] at h1; simp at h1
   · exact Or.inr h1
 
-/-! ## an acknowledged Stop is never sent again, absent a crash -/
+/-! ## a Stop acknowledged to the client is never sent again, absent a crash -/
 
-/-- The server never accepts a second Stop for a session, unless a crash happened after the session was
-    started (`tainted` = the sessions StartSession had registered before the latest crash,
-    `tainted_is_crash_after_start`).  Graceful shutdown + restart, retry ticks racing the queue channel,
-    the shutdown drain, the orphan recovery, pending.json: none of them re-sends an acknowledged Stop.
-    Hypothesis: session ids are not reused (`registered` = the ids StartSession admitted, in order; RADIUS
-    requires Acct-Session-Id to be unique).  Every answer vector, every history, every crash point (a crash
-    only exempts the sessions that were alive across it). -/
+/-- Once a Stop of a session has been ACKNOWLEDGED to the client, the server never accepts another Stop of
+    that session — unless a crash happened after the session was started (`tainted`,
+    `tainted_is_crash_after_start`).  Position i of the log holds an acknowledged Stop of the session, a later
+    position j holds another Stop of it ⇒ the session is tainted.  (A Stop the server accepted but whose
+    reply the client never saw — `lost` — may legitimately be sent again: only the acknowledged one counts.)
+    Graceful shutdown + restart, the retry tick racing the queue channel, the processor delivering a queued
+    Stop while StopSession or the shutdown drain is still running, the orphan recovery, pending.json: none
+    re-sends an acknowledged Stop.  Hypothesis: session ids are not reused (RADIUS requires Acct-Session-Id
+    to be unique). -/
 theorem no_dup_stop_without_crash (c : Cfg) (ops : List Op)
-    (hfresh : ((run (init c) ops).registered.map (·.1)).Nodup) :
-    ∀ s, s ∉ (run (init c) ops).tainted →
-      ((run (init c) ops).log.filter (fun r => r.kind == .stop && r.sid == s)).length ≤ 1 := by
-  intro s hs
-  have h := nd_run (nd_init c) (reg_init c) (by intro h; simp [init] at h) ops hfresh
-  exact (h.per s hs).a
+    (hfresh : ((run (init c) ops).registered.map (·.1)).Nodup)
+    (i j : Nat) (ri rj : Rec) (hij : i < j)
+    (hi : (run (init c) ops).log[i]? = some ri) (hack : (run (init c) ops).logAck[i]? = some true)
+    (hj : (run (init c) ops).log[j]? = some rj)
+    (hki : ri.kind = .stop) (hkj : rj.kind = .stop) (hs : ri.sid = rj.sid) :
+    ri.sid ∈ (run (init c) ops).tainted := by
+  have hd := (ld_run c ops).dup i j ri rj hij hi hack hj hki hkj hs
+  have h := nd_run (nd_init c) (reg_init c) (by intro s hs; simp [init] at hs)
+    (by intro h; simp [init] at h) ops hfresh
+  by_cases ht : ri.sid ∈ (run (init c) ops).tainted
+  · exact ht
+  · exact absurd hd (h.per _ ht).a
 
 /-- `tainted` is exactly: a crash happened after StartSession registered the session. -/
 theorem tainted_is_crash_after_start (σ : State) (op : Op) (s : Nat) (h : s ∈ (step σ op).tainted) :
-    s ∈ σ.tainted ∨ (op = .crash ∧ s ∈ σ.registered.map (·.1)) :=
+    s ∈ σ.tainted ∨ ((op = .crash ∨ op = .crashTorn) ∧ s ∈ σ.registered.map (·.1)) :=
   tainted_step σ op s h
 
-/-- In a history without any crash (graceful shutdowns and restarts allowed) no session ever has two Stops
-    accepted. -/
-theorem no_dup_stop_crash_free (c : Cfg) (ops : List Op) (hnc : Op.crash ∉ ops)
-    (hfresh : ((run (init c) ops).registered.map (·.1)).Nodup) (s : Nat) :
-    ((run (init c) ops).log.filter (fun r => r.kind == .stop && r.sid == s)).length ≤ 1 := by
-  apply no_dup_stop_without_crash c ops hfresh s
-  rw [tainted_empty_run (init c) ops hnc rfl]; simp
+/-- In a history without any crash (graceful shutdowns and restarts allowed, any answers, any interleaving
+    of the processor) an acknowledged Stop is never followed by another Stop of the same session. -/
+theorem no_dup_stop_crash_free (c : Cfg) (ops : List Op) (hnc : Op.crash ∉ ops) (hnc2 : Op.crashTorn ∉ ops)
+    (hfresh : ((run (init c) ops).registered.map (·.1)).Nodup)
+    (i j : Nat) (ri rj : Rec) (hij : i < j)
+    (hi : (run (init c) ops).log[i]? = some ri) (hack : (run (init c) ops).logAck[i]? = some true)
+    (hj : (run (init c) ops).log[j]? = some rj)
+    (hki : ri.kind = .stop) (hkj : rj.kind = .stop) : ri.sid ≠ rj.sid := by
+  intro hs
+  have := no_dup_stop_without_crash c ops hfresh i j ri rj hij hi hack hj hki hkj hs
+  rw [tainted_empty_run (init c) ops hnc hnc2 rfl] at this
+  simp at this
 
 /-! ## restart drains what is durable -/
 
-/-- After ANY history that left the process down (crash at any micro-step, or graceful shutdown): restart,
-    let the recovery procedure run to completion with the server up, then one retry pass with the server up
-    (`drainOps`; `n` = number of micro-steps granted to each, any sufficiently large number: micro-steps
-    of a finished call do nothing).  Then every Stop that was on disk — the session file of `s`, or a Stop of
-    `s` stored in pending.json — has been accepted by the server, for every started session `s`, under
-    every iteration order of pending.json and of the retry map. -/
+/-- After ANY history that left the process down (crash at any micro-step, torn or not, or graceful shutdown):
+    restart, let the recovery procedure run to completion with the server up, then one retry pass of the
+    processor with the server up (`drainOps`; `n` = number of micro-steps granted to each, any sufficiently large
+    number: micro-steps of a finished call do nothing).  Then every Stop that was on disk — the session file of
+    `s`, or a Stop of `s` stored in pending.json — has been accepted by the server, for every started session
+    `s`, under every iteration order of pending.json and of the retry map. -/
 theorem restart_drains (c : Cfg) (ops : List Op) (order order2 : List Nat)
     (hdown : (run (init c) ops).up = false) :
     ∃ N, ∀ n, N ≤ n → ∀ s ∈ (run (init c) ops).started, durableStop (run (init c) ops) s →
@@ -210,6 +262,63 @@ theorem every_started_session_gets_its_stop_partial (c : Cfg) (ops : List Op) (o
   · apply hN n hn s hs'
     left
     rw [run_append]; exact h1
+
+/-! ## within the retry budget -/
+
+/-- In the SAME process lifetime (no crash, no restart needed): whenever the processor goroutine is alive
+    and idle — whatever API call is parked in whatever frame — one retry pass with the server up delivers every
+    record of the retry map, in particular every queued Stop. -/
+theorem retry_delivers_same_lifetime (c : Cfg) (ops : List Op) (order : List Nat)
+    (hup : (run (init c) ops).up = true) (halive : procAlive (run (init c) ops).vol.pc = true)
+    (hidle : (run (init c) ops).vol.ppc = none) :
+    ∃ N, ∀ n, N ≤ n → ∀ id p, findP (run (init c) ops).vol.pending id = some p →
+      p.req ∈ (run (run (init c) ops) (Op.retry order :: pticks n)).log := by
+  obtain ⟨N, hN⟩ := retry_delivers_core _ hup halive hidle order
+  exact ⟨N, fun n hn id p hp => (hN n hn).2.2 id p hp⟩
+
+/-- … and so does the channel delivery for the record at the head of the queue. -/
+theorem deq_delivers_same_lifetime (c : Cfg) (ops : List Op) (id : Nat) (q : List Nat)
+    (hup : (run (init c) ops).up = true) (halive : procAlive (run (init c) ops).vol.pc = true)
+    (hidle : (run (init c) ops).vol.ppc = none) (hq : (run (init c) ops).vol.queue = id :: q) :
+    ∃ N, ∀ n, N ≤ n → ∀ p, findP (run (init c) ops).vol.pending id = some p →
+      p.req ∈ (run (run (init c) ops) (Op.deq :: pticks n)).log := by
+  obtain ⟨N, hN⟩ := deq_delivers_core _ hup halive hidle id q hq
+  exact ⟨N, fun n hn p hp => (hN n hn).2 p hp⟩
+
+/-- Every retry count in the retry map and in pending.json stays below the budget (MaxRetries ≥ 1). -/
+theorem retries_below_budget (c : Cfg) (hm : 1 ≤ c.maxRetries) (ops : List Op) :
+    (∀ p ∈ (run (init c) ops).vol.pending, p.retries < c.maxRetries) ∧
+    (∀ ps, (run (init c) ops).dur.pfile = some ps → ∀ p ∈ ps, p.retries < c.maxRetries) := by
+  obtain ⟨h, hc⟩ := rb_run c hm ops
+  have h1 := h.pend
+  have h2 := h.pfile
+  rw [hc] at h1 h2
+  exact ⟨h1, h2⟩
+
+/-- A transmission of the processor the client sees fail, which is not the last one the budget allows, keeps
+    the record and adds exactly one to its retry count; nothing is abandoned. -/
+theorem failed_send_counts_one (σ : State) (id : Nat) (rest : List Nat) (p : PRec) (a : Ans)
+    (hpc : σ.vol.ppc = some (.procSend id rest)) (hp : findP σ.vol.pending id = some p) (ha : a ≠ .up)
+    (hlt : p.retries + 1 < σ.cfg.maxRetries) :
+    findP (ptick σ a).vol.pending id = some { p with retries := p.retries + 1 } ∧
+    (ptick σ a).abandoned = σ.abandoned :=
+  proc_fail_counts hpc hp ha hlt
+
+/-- The failed transmission that exhausts the budget removes the record (a Stop: the session is `abandoned`). -/
+theorem budget_exhausted_abandons (σ : State) (id : Nat) (rest : List Nat) (p : PRec) (a : Ans)
+    (hpc : σ.vol.ppc = some (.procSend id rest)) (hp : findP σ.vol.pending id = some p) (ha : a ≠ .up)
+    (hge : p.retries + 1 ≥ σ.cfg.maxRetries) :
+    findP (ptick σ a).vol.pending id = none ∧ (p.req.kind = .stop → p.req.sid ∈ (ptick σ a).abandoned) :=
+  proc_fail_abandons hpc hp ha hge
+
+/-- A Stop is abandoned ONLY so: by a processor transmission the client saw fail, of a record whose retry count
+    thereby reaches MaxRetries — with `retries_below_budget`, exactly at its MaxRetries-th failed transmission. -/
+theorem abandoned_only_at_budget (σ : State) (op : Op) (s : Nat) (h : s ∈ (step σ op).abandoned) :
+    s ∈ σ.abandoned ∨
+    ∃ a id rest p, op = .ptick a ∧ a ≠ .up ∧ σ.vol.ppc = some (.procSend id rest) ∧
+      findP σ.vol.pending id = some p ∧ p.req.kind = .stop ∧ p.req.sid = s ∧
+      p.retries + 1 ≥ σ.cfg.maxRetries :=
+  abandoned_step σ op s h
 
 /-! ## gigawords -/
 
@@ -250,19 +359,62 @@ theorem gigaword_roundtrip (x : UInt64) : AcctWire.decode (AcctWire.encode x) = 
     rw [hz] at hx
     simpa using hx
 
+/-! ## the retry schedule with time (model Bng.AcctBackoff, tied to the real code under a virtual clock by
+    harness/cmd/acctretry) -/
+
+/-- the back-off after the n-th failed send is exactly `min (base * 2^n) max`: at least the base delay,
+    at most the cap, never negative (fix C08-backoff-overflow) -/
+theorem backoff_bounds (base max : Int) (n : Nat) (hb : 0 < base) (hm : base ≤ max) :
+    base ≤ AcctBackoff.delay base max n ∧ AcctBackoff.delay base max n ≤ max := by
+  have h2 : (1 : Int) ≤ 2 ^ n := by
+    have : (0 : Int) < 2 ^ n := Int.pow_pos (by decide)
+    omega
+  have h3 : base * 1 ≤ base * 2 ^ n := Int.mul_le_mul_of_nonneg_left h2 (Int.le_of_lt hb)
+  unfold AcctBackoff.delay
+  split <;> omega
+
+/-- the back-off never decreases from one failure to the next -/
+theorem backoff_monotone (base max : Int) (n : Nat) (hb : 0 < base) :
+    AcctBackoff.delay base max n ≤ AcctBackoff.delay base max (n + 1) := by
+  have h3 : base * 2 ^ n ≤ base * 2 ^ (n + 1) := by
+    rw [Int.pow_succ, ← Int.mul_assoc]
+    have : (0 : Int) ≤ base * 2 ^ n := Int.mul_nonneg (Int.le_of_lt hb) (Int.le_of_lt (Int.pow_pos (by decide)))
+    omega
+  unfold AcctBackoff.delay
+  split <;> split <;> omega
+
+/-- the gate: `retry` sends exactly the records whose NextRetry is STRICTLY in the past -/
+theorem retry_gate (σ : AcctBackoff.State) (id : Nat) :
+    id ∈ AcctBackoff.due σ ↔ ∃ r ∈ σ.recs, r.id = id ∧ r.next < σ.now := by
+  unfold AcctBackoff.due
+  simp only [List.mem_map, List.mem_filter, decide_eq_true_eq]
+  constructor
+  · rintro ⟨r, ⟨hr, hn⟩, rfl⟩; exact ⟨r, hr, rfl, hn⟩
+  · rintro ⟨r, hr, rfl, hn⟩; exact ⟨r, ⟨hr, hn⟩, rfl⟩
+
+/-- before the fix the int64 product wrapped: with the default 1 s / 60 s delays the 34th failure scheduled the
+    next retry 40 years in the PAST, i.e. the record was due at once, on every tick -/
+theorem backoff_overflow_witness :
+    AcctBackoff.delayWrapped 1000000000 60000000000 34 < 0 ∧ AcctBackoff.delay 1000000000 60000000000 34 = 60000000000 := by
+  decide
+
+
 /-! non-vacuity -/
-example : ∃ ops : List Op, Op.crash ∉ ops ∧ ((run (init ⟨3, 8⟩) ops).registered.map (·.1)).Nodup ∧
-    (run (init ⟨3, 8⟩) ops).log.length = 4 :=
-  ⟨[.start 1 1, .tick true, .tick true, .start 2 2, .tick true, .tick true, .stop 1 1, .tick true, .tick true,
-    .tick true, .tick true, .shutdown [], .tick true, .tick true, .tick true, .restart [], .tick true],
-   by simp, by decide, by decide⟩
+example : ∃ ops : List Op, Op.crash ∉ ops ∧ Op.crashTorn ∉ ops ∧
+    ((run (init ⟨3, 8⟩) ops).registered.map (·.1)).Nodup ∧ (run (init ⟨3, 8⟩) ops).log.length = 4 :=
+  ⟨[.start 1 1, .tick .up, .tick .up, .start 2 2, .tick .up, .tick .up, .stop 1 1, .tick .up, .tick .lost,
+    .deq, .ptick .up, .ptick .up, .tick .up, .tick .up],
+   by simp, by simp, by decide, by decide⟩
 example : ∃ ops : List Op, (run (init ⟨3, 8⟩) ops).up = false ∧ (run (init ⟨3, 8⟩) ops).started ≠ [] ∧
     durableStop (run (init ⟨3, 8⟩) ops) 1 :=
-  ⟨[.start 1 1, .tick true, .tick true, .crash], by decide, by decide, Or.inl (by decide)⟩
+  ⟨[.start 1 1, .tick .up, .tick .up, .crashTorn], by decide, by decide, Or.inl (by decide)⟩
 example : ∃ ops, (run (init ⟨3, 8⟩) ops).started ≠ [] ∧ (run (init ⟨3, 8⟩) ops).recVol = [] :=
-  ⟨[.start 1 1, .tick true, .tick true], by decide⟩
+  ⟨[.start 1 1, .tick .up, .tick .up], by decide⟩
 example : ∃ ops r, r ∈ (run (init ⟨3, 8⟩) ops).log ∧ r.kind = .stop ∧ r.sid ∉ (run (init ⟨3, 8⟩) ops).startQueued :=
-  ⟨[.start 1 1, .tick true, .tick true, .stop 1 1, .tick true, .tick true],
+  ⟨[.start 1 1, .tick .up, .tick .up, .stop 1 1, .tick .up, .tick .up],
    ⟨.stop, 1, 1, 1, 0, 0⟩, by decide⟩
+example : ∃ ops : List Op, (run (init ⟨3, 8⟩) ops).up = true ∧ procAlive (run (init ⟨3, 8⟩) ops).vol.pc = true ∧
+    (run (init ⟨3, 8⟩) ops).vol.ppc = none ∧ (run (init ⟨3, 8⟩) ops).vol.pending ≠ [] :=
+  ⟨[.start 1 1, .tick .up, .tick .up, .stop 1 1, .tick .up, .tick .down], by decide⟩
 
 end Bng.Spec.C08
